@@ -48,6 +48,7 @@ def run(ctx):
     rule_even(ctx)
     n1(ctx, ["geometry_tools/automata/fsa.py"])
     CA.rule_c2(ctx, "FSA")
+    F.rule_rf1(ctx)
     u1(ctx, ENTRIES, min_functions=12)
     ctx.r.assume("language equality for multiples, relabelling, pruning and "
                  "the shortest-path subgraph is not decided (needs values)")
